@@ -902,13 +902,13 @@ class Facts:
             out.add(r)
         return out
 
-    def unit(self, fn, depth=3):
+    def unit(self, fn, depth=3, expand=False):
         """`fn` as a unit of analysis: its body with every crate-local helper spliced in, except the functions the rules
         treat as atoms (those a rule names - see atoms()) and trait-impl methods.  A rule evaluated on unit(f) gives the same
         verdict whether a step of f sits inline, in a freshly extracted private helper, or in a method split off f."""
         if not hasattr(self, "_units"):
             self._units = {}
-        key = (fn.key, depth)
+        key = (fn.key, depth, expand)
         if key not in self._units:
             at = atoms()
 
@@ -923,7 +923,7 @@ class Facts:
                         return False
                 return True
             import inline
-            self._units[key] = inline.inline(self, fn, depth, want)
+            self._units[key] = inline.inline(self, fn, depth, want, expand=expand)
         return self._units[key]
 
     def family(self, fn, depth=3):
@@ -1274,15 +1274,39 @@ def arms(fn, adt_suffix, place_pred=None):
     return sw, out
 
 
+def _return_locals(fn):
+    """Locals whose whole value is copied / moved (possibly through several temporaries) into the return place `_0`:
+    `_0 = move _7; _7 = move _12` makes {0, 7, 12}.  Splicing a helper turns its `_0` into such a temporary."""
+    rl = {0}
+    changed = True
+    while changed:
+        changed = False
+        for b in fn.live:
+            for s in fn.stmts(b):
+                if s["k"] == "assign" and s["p"]["l"] in rl and not s["p"]["p"] and s["r"]["k"] == "use":
+                    q = op_place(s["r"]["o"])
+                    if q is not None and not q["p"] and q["l"] not in rl and not (1 <= q["l"] <= fn.argc):
+                        rl.add(q["l"])
+                        changed = True
+    return rl
+
+
 def assigns_to_return(fn, blocks):
-    """Statements `_0 = ...` (whole local) inside blocks, plus calls whose destination is _0."""
+    """The definitions of the returned value located inside `blocks`: statements `_r = <rvalue>` and calls with destination
+    `_r`, for `_r` the return place or a temporary that is moved whole into it; pure forwarding moves between such
+    temporaries are not definitions."""
+    rl = _return_locals(fn)
     out = []
     for b in sorted(blocks):
         for i, s in enumerate(fn.stmts(b)):
-            if s["k"] == "assign" and s["p"]["l"] == 0 and not s["p"]["p"]:
+            if s["k"] == "assign" and s["p"]["l"] in rl and not s["p"]["p"]:
+                if s["r"]["k"] == "use":
+                    q = op_place(s["r"]["o"])
+                    if q is not None and not q["p"] and q["l"] in rl:
+                        continue
                 out.append(("stmt", b, s))
         t = fn.term(b)
-        if t["k"] == "call" and t["dest"]["l"] == 0 and not t["dest"]["p"]:
+        if t["k"] == "call" and t["dest"]["l"] in rl and not t["dest"]["p"]:
             out.append(("call", b, t))
     return out
 
